@@ -272,7 +272,7 @@ def removal_closure_cases(tier):
     """graphs over nodes A, B, C (+ Bad): each node refers to a subset of the others via property / array items / union"""
     nodes = ["A", "B", "C"]
     targets = nodes + ["Bad"]
-    kinds = ["prop", "array", "union"]
+    kinds = ["prop", "array", "union", "nested", "nested2"]      # nested: the reference sits inside an inline object (depth 1 / 2)
     out = []
     opts = []
     for n in nodes:
@@ -308,6 +308,10 @@ def removal_closure(case):
                 props[f"p{i}"] = ref(t)
             elif k == "array":
                 props[f"p{i}"] = {"type": "array", "items": ref(t)}
+            elif k == "nested":
+                props[f"p{i}"] = {"type": "object", "properties": {"inner": ref(t)}}
+            elif k == "nested2":
+                props[f"p{i}"] = {"type": "array", "items": {"type": "object", "properties": {"deep": {"type": "object", "properties": {"inner": ref(t)}}}}}
             else:
                 props[f"p{i}"] = {"oneOf": [ref(t), {"type": "string"}]}
         schemas[n] = {"type": "object", "properties": props}
